@@ -30,10 +30,11 @@ Fixpoint frm_split1_head (sep : Z) (s : frm_chars) : frm_chars :=
   | c :: r => if c =? sep then [] else c :: frm_split1_head sep r
   end.
 
-(* functools.reduce(operator.xor, seq): TypeError on an empty sequence *)
+(* functools.reduce(operator.xor, seq, 0): 0 for an empty sequence (since "fix: compute_checksum() of an empty
+   sentence body is 0 instead of a TypeError"; 0 xor c = c, so a non-empty sequence folds as before) *)
 Definition frm_reduce_xor (s : frm_chars) : M Z :=
   match s with
-  | [] => Raise (Py TypeError)
+  | [] => Ok 0
   | c :: r => Ok (fold_left Z.lxor r c)
   end.
 
